@@ -316,6 +316,38 @@ pub fn long_key_family() -> Vec<(String, Vec<Kv>)> {
     long_keys_of(&[300usize, 1000, 70_000])
 }
 
+/// Twin family: the SAME wide node (n transitions, n across the index
+/// threshold) compiled two or three times, after some unrelated narrow nodes,
+/// as sets and as maps whose values repeat with period n. Under tiny cache
+/// geometries the second copy is found in a cell that was filled by another
+/// node before.
+pub fn twin_family() -> Vec<(String, Vec<Kv>)> {
+    let mut out = vec![];
+    for n in [1usize, 2, 31, 32, 33, 34, 64, 200, 256] {
+        for heads in [&b"ac"[..], &b"acx"[..]] {
+            for depth2 in [false, true] {
+                let mut keys: Vec<Key> = vec![b"0q".to_vec(), b"0r".to_vec(), b"1q".to_vec()];
+                for &h in heads {
+                    for i in 0..n {
+                        let b = ((i * 256) / n) as u8;
+                        let mut k = vec![h, b];
+                        if depth2 {
+                            k.push(b'q');
+                        }
+                        keys.push(k);
+                    }
+                }
+                keys.sort();
+                keys.dedup();
+                out.push((format!("twin-{}-{}-{}-set", n, heads.len(), depth2), Pat::Zero.apply(&keys)));
+                let kvs: Vec<Kv> = keys.iter().enumerate().map(|(i, k)| (k.clone(), if k[0] < b'a' { 0 } else { ((i - 3) % n) as u64 * 3 })).collect();
+                out.push((format!("twin-{}-{}-{}-map", n, heads.len(), depth2), kvs));
+            }
+        }
+    }
+    out
+}
+
 /// Key-length ladder: the long-key shape for EVERY length 2..=1100 and the
 /// lengths 2^k-3..2^k+3 for k = 11..16 (buffers that grow by doubling, one-
 /// and two-byte length fields, stack depth of the readers). `part` of `parts`.
